@@ -14,8 +14,10 @@ package c09
 
 import (
 	"fmt"
+	"maps"
 	"math"
 	"os"
+	"runtime"
 	"sort"
 	"strings"
 	"sync"
@@ -37,24 +39,29 @@ var scanLimits = []uint{0, 1, 2} // 0 = unlimited
 const longRange = 16
 
 type harness struct {
-	r        *ev.Run
-	filters  []filter
-	queries  atomic.Int64
-	pages    atomic.Int64
-	nonEmpty atomic.Int64
+	r                     *ev.Run
+	filters               []filter
+	queries               atomic.Int64
+	pages                 atomic.Int64
+	nonEmpty              atomic.Int64
 	tReplay, tKey, tCheck atomic.Int64
+	sem                   chan struct{} // global CPU slots shared by the concurrent searches
 }
 
-// buildBases stores the boundary chain once per backend and freezes copies at the wanted heads.
-func buildBases(r *ev.Run, newState bool) []*base {
+// buildBases stores the boundary chain once per backend and freezes images at the wanted heads.
+// The boundary images carry the running-filter snapshot of a graceful stop at that head (snap=true) or
+// none (a node that only ever crashed).
+func buildBases(r *ev.Run, newState bool, want map[string]bool) []*base {
 	var out []*base
 	freeze := func(name string, d *memory.Database, ch []*chain.Entry) {
-		c := d.Copy()
-		out = append(out, &base{name: name, newState: newState, db: c, img: c.Impl().(map[string][]byte), chain: append([]*chain.Entry{}, ch...)})
+		if !want[name] {
+			return
+		}
+		img := maps.Clone(d.Copy().Impl().(map[string][]byte))
+		out = append(out, &base{name: name, newState: newState, img: img, sum: imageSum(img), chain: append([]*chain.Entry{}, ch...)})
 	}
-	d := memory.New()
-	freeze("empty", d, nil)
-	// small: [empty block, X]
+	freeze("empty", memory.New(), nil)
+	// 2blocks: [empty block, X]
 	{
 		d := memory.New()
 		bc := chain.NewNode(d, newState)
@@ -66,29 +73,48 @@ func buildBases(r *ev.Run, newState bool) []*base {
 			}
 			e := buildEntry(p, sh)
 			if err := chain.StoreSync(bc, e.Fresh(p)); err != nil {
-				r.Infra("base small: %v", err)
+				r.Infra("base 2blocks: %v", err)
 			}
 			ch = append(ch, e)
 		}
 		freeze("2blocks", d, ch)
 	}
+	needBoundary := false
+	for k := range want {
+		if strings.HasPrefix(k, "head8") {
+			needBoundary = true
+		}
+	}
+	if !needBoundary {
+		return out
+	}
+	d := memory.New()
 	bc := chain.NewNode(d, newState)
 	var ch []*chain.Entry
 	var parent *chain.Entry
 	for n := uint64(0); n <= 8191; n++ {
 		e := buildEntry(parent, baseShapeAt(n))
-		if err := chain.StoreSync(bc, e.Fresh(parent)); err != nil {
+		fe := e
+		if len(e.Block.Receipts) > 0 {
+			fe = e.Fresh(parent) // juno never gets the reference copy of a block whose receipts the oracle reads
+		}
+		if err := chain.StoreSync(bc, fe); err != nil {
 			r.Infra("base chain block %d: %v", n, err)
 		}
 		ch = append(ch, e)
 		parent = e
-		switch n {
-		case 8189:
-			freeze("head8189", d, ch)
-		case 8190:
-			freeze("head8190", d, ch)
-		case 8191:
-			freeze("head8191", d, ch)
+		if n >= 8189 {
+			name := fmt.Sprintf("head%d", n)
+			freeze(name+"-nosnap", d, ch)
+			if want[name] {
+				// graceful stop of a twin at this head: the snapshot goes into the frozen image only
+				t := d.Copy()
+				tb := chain.NewNode(t, newState)
+				if err := tb.WriteRunningEventFilter(); err != nil {
+					r.Infra("base %s: snapshot: %v", name, err)
+				}
+				freeze(name, t, ch)
+			}
 		}
 	}
 	return out
@@ -98,67 +124,135 @@ type state struct {
 	path []op
 }
 
+type searchCfg struct {
+	base     string
+	newState bool
+	depth    int
+}
+
 func TestCheck(t *testing.T) {
 	r := ev.Start("C09", "model_checking")
-	r.SetBudget(ev.Pick(r, 150, 1500))
-	depth := ev.Pick(r, 4, 5)
-	if s := os.Getenv("C09_DEPTH"); s != "" {
-		fmt.Sscan(s, &depth)
-	}
+	r.SetBudget(ev.Pick(r, 160, 1600))
 	alphabet := []op{opStoreX, opStoreY, opRevert, opQuery, opRestartG, opRestartU}
-	if r.Thorough() {
+	var cfgs []searchCfg
+	if r.Quick() {
+		for _, b := range []string{"empty", "2blocks", "head8190", "head8191"} {
+			cfgs = append(cfgs, searchCfg{b, false, 4})
+		}
+		for _, b := range []string{"2blocks", "head8190"} {
+			cfgs = append(cfgs, searchCfg{b, true, 4})
+		}
+	} else {
 		alphabet = []op{opStoreX, opStoreY, opStoreZ, opRevert, opQuery, opRestartG, opRestartU}
+		for _, ns := range []bool{false, true} {
+			for _, b := range []string{"empty", "2blocks", "head8189", "head8190", "head8191", "head8189-nosnap", "head8190-nosnap", "head8191-nosnap"} {
+				cfgs = append(cfgs, searchCfg{b, ns, 5})
+			}
+		}
+	}
+	if s := os.Getenv("C09_DEPTH"); s != "" {
+		var d int
+		fmt.Sscan(s, &d)
+		for i := range cfgs {
+			cfgs[i].depth = d
+		}
+	}
+	if only := os.Getenv("C09_BASE"); only != "" {
+		var keep []searchCfg
+		for _, c := range cfgs {
+			if strings.Contains(c.base+hist.Backend(c.newState), only) {
+				keep = append(keep, c)
+			}
+		}
+		cfgs = keep
 	}
 	h := &harness{r: r, filters: allFilters(r.Thorough())}
 
-	var bases []*base
-	var bmu sync.Mutex
-	ev.Par(2, 2, func(i int) {
-		b := buildBases(r, i == 1)
-		bmu.Lock()
-		bases = append(bases, b...)
-		bmu.Unlock()
-	})
-	sort.Slice(bases, func(i, j int) bool {
-		if bases[i].newState != bases[j].newState {
-			return !bases[i].newState
+	want := [2]map[string]bool{{}, {}}
+	for _, c := range cfgs {
+		i := 0
+		if c.newState {
+			i = 1
 		}
-		return bases[i].name < bases[j].name
-	})
-	only := os.Getenv("C09_BASE")
-
-	var states, transitions, maxDepth int64
-	for _, b := range bases {
-		if only != "" && !strings.Contains(b.name+hist.Backend(b.newState), only) {
-			continue
-		}
-		st, tr, md, per := h.search(b, alphabet, depth)
-		states += st
-		transitions += tr
-		if md > maxDepth {
-			maxDepth = md
-		}
-		r.Sample(map[string]any{"base": b.name + hist.Backend(b.newState), "states": st, "transitions": tr, "new_states_per_depth": per})
+		want[i][c.base] = true
 	}
+	var bases [2][]*base
+	ev.Par(2, 2, func(i int) {
+		if len(want[i]) > 0 {
+			bases[i] = buildBases(r, i == 1, want[i])
+		}
+	})
+	find := func(c searchCfg) *base {
+		i := 0
+		if c.newState {
+			i = 1
+		}
+		for _, b := range bases[i] {
+			if b.name == c.base {
+				return b
+			}
+		}
+		r.Infra("base %s not built", c.base)
+		return nil
+	}
+
+	type result struct {
+		st, tr, md, qs int64
+		per            []int
+	}
+	res := make([]result, len(cfgs))
+	h.sem = make(chan struct{}, runtime.NumCPU())
+	var wg sync.WaitGroup
+	for i, c := range cfgs {
+		wg.Add(1)
+		go func() {
+			defer wg.Done()
+			b := find(c)
+			st, tr, md, qs, per := h.search(b, alphabet, c.depth)
+			res[i] = result{st, tr, md, qs, per}
+			if imageSum(b.img) != b.sum {
+				r.Infra("frozen base image %s was modified during the run", b.name)
+			}
+		}()
+	}
+	wg.Wait()
+	var states, transitions, maxDepth, qstates int64
+	var cfgNames []string
+	for i, c := range cfgs {
+		x := res[i]
+		states += x.st
+		transitions += x.tr
+		qstates += x.qs
+		if x.md > maxDepth {
+			maxDepth = x.md
+		}
+		name := fmt.Sprintf("%s%s depth<=%d", c.base, hist.Backend(c.newState), c.depth)
+		cfgNames = append(cfgNames, name)
+		r.Sample(map[string]any{"search": name, "states": x.st, "transitions": x.tr, "query_distinct_states_checked": x.qs, "new_states_per_depth": x.per})
+	}
+	r.Set("searches", cfgNames)
 	r.Set("states", states)
 	r.Set("transitions", transitions)
 	r.Set("max_depth", maxDepth)
 	r.Set("traces_validated_against_impl", transitions)
-	r.Set("distinct_nontrivial", states)
+	r.Set("distinct_nontrivial", qstates)
+	r.Set("query_distinct_states_checked", qstates)
 	r.Set("evaluations", h.queries.Load())
 	r.Set("paged_queries", h.queries.Load())
 	r.Set("pages", h.pages.Load())
 	r.Set("queries_with_nonempty_answer", h.nonEmpty.Load())
 	r.Set("filters", int64(len(h.filters)))
 	r.Set("cpu_s_replay_key_check", fmt.Sprintf("%.1f %.1f %.1f", float64(h.tReplay.Load())/1e9, float64(h.tKey.Load())/1e9, float64(h.tCheck.Load())/1e9))
-	r.Set("rule", fmt.Sprintf("BFS over histories of ops %v to depth %d from %d base images x 2 state backends, each history replayed on one long-lived real Blockchain; "+
-		"state = KV image + reflective dump of running filter and LRU; in every distinct state: %d filters x all ranges over {0,1,8190..8193,head-3..head+1} x chunk %v x scan limit %v "+
-		"paged to the end (tokens round-tripped through their string form) and compared with the naive scan of the reference receipts",
-		opList(alphabet), depth, len(bases)/2, len(h.filters), chunkSizes, scanLimits))
+	r.Set("rule", fmt.Sprintf("BFS over histories of ops %v from each base image (see searches), every history replayed on ONE long-lived real Blockchain (restarts are ops); "+
+		"state = KV image + reflective dump of running filter and LRU; in every state that is distinct for queries (image without the snapshot key + the two index objects): "+
+		"%d filters x all ranges over endpoints {0,8191,8192,head-2..head+1} x chunk %v x scan limit %v (limits 1,2 on a fully wildcard filter only for ranges <= %d blocks) "+
+		"paged to the end (tokens round-tripped through their string form, must advance) and compared event by event with the naive scan of the reference receipts",
+		opList(alphabet), len(h.filters), chunkSizes, scanLimits, longRange))
 	r.Assume = append(r.Assume,
 		"blocks are produced by verif/mc/chain (valid hashes/commitments); event layouts come from the 4-shape set of universe_test.go",
 		"a key pattern ending in a wildcard position is compared under juno's reading (event needs a key at every pattern position); counted in outcome 'trailing-wildcard-excludes-shorter-event'",
-		"crash = loss of the process (new Blockchain on the same store); torn/failed commits are C05's subject")
+		"crash = loss of the process (new Blockchain on the same store); torn/failed commits are C05's subject",
+		"base images are reached by plain sequential sync (no enumeration below them)")
 	r.Finish()
 }
 
@@ -171,11 +265,37 @@ func opList(a []op) []string {
 }
 
 // search: breadth-first over op sequences, deduplicated by the concrete state key.
-func (h *harness) search(b *base, alphabet []op, depth int) (states, transitions, maxDepth int64, perDepth []int) {
+func (h *harness) search(b *base, alphabet []op, depth int) (states, transitions, maxDepth, qstates int64, perDepth []int) {
 	r := h.r
 	label := b.name + hist.Backend(b.newState)
 	seen := map[string]bool{}
+	qseen := map[string]bool{}
 	var mu sync.Mutex
+	visit := func(n *node, p []op) {
+		// the check forces the lazy running filter by writing its snapshot (this node is discarded
+		// afterwards); the image before that is kept for the restart diagnosis
+		n.pre = maps.Clone(n.db.Impl().(map[string][]byte))
+		if len(n.chain) > 0 {
+			if err := n.bc.WriteRunningEventFilter(); err != nil {
+				r.Violate("running-filter-unusable"+hist.Backend(b.newState), map[string]any{"base": label, "path": pathString(p), "err": err.Error()})
+				return
+			}
+		}
+		qk := n.queryKey()
+		mu.Lock()
+		dup := qseen[qk]
+		qseen[qk] = true
+		if !dup {
+			qstates++
+		}
+		mu.Unlock()
+		if !dup {
+			t0 := time.Now()
+			h.checkState(n, p, label)
+			h.tCheck.Add(int64(time.Since(t0)))
+		}
+	}
+	h.sem <- struct{}{}
 	root, _, err := b.replay(nil)
 	if err != nil {
 		r.Infra("open base %s: %v", label, err)
@@ -187,7 +307,8 @@ func (h *harness) search(b *base, alphabet []op, depth int) (states, transitions
 	}
 	seen[rk] = true
 	states = 1
-	h.checkState(root, nil, label)
+	visit(root, nil)
+	<-h.sem
 	frontier := []state{{}}
 	for d := 0; d < depth && len(frontier) > 0; d++ {
 		var next []state
@@ -201,11 +322,13 @@ func (h *harness) search(b *base, alphabet []op, depth int) (states, transitions
 				jobs = append(jobs, job{s, o})
 			}
 		}
-		ev.Par(len(jobs), 16, func(i int) {
+		ev.Par(len(jobs), runtime.NumCPU(), func(i int) {
 			if r.OutOfTime() {
 				r.Incomplete(fmt.Sprintf("%s: search stopped at depth %d", label, d))
 				return
 			}
+			h.sem <- struct{}{}
+			defer func() { <-h.sem }()
 			j := jobs[i]
 			p := append(append([]op{}, j.s.path...), j.o)
 			t0 := time.Now()
@@ -234,9 +357,7 @@ func (h *harness) search(b *base, alphabet []op, depth int) (states, transitions
 			}
 			mu.Unlock()
 			if fresh {
-				t0 = time.Now()
-				h.checkState(n, p, label)
-				h.tCheck.Add(int64(time.Since(t0)))
+				visit(n, p)
 			}
 		})
 		// deterministic order of the next frontier
@@ -432,6 +553,7 @@ func (h *harness) checkState(n *node, path []op, label string) {
 	}
 	head := uint64(len(n.chain) - 1)
 	ends := endpoints(head)
+	all := allEvents(n.chain)
 	backend := hist.Backend(n.b.newState)
 	var q, pg, ne int64
 	for fi := range h.filters {
@@ -449,8 +571,8 @@ func (h *harness) checkState(n *node, path []op, label string) {
 				}
 				ef.SetRangeEndBlockByNumber(blockchain.EventFilterFrom, from)
 				ef.SetRangeEndBlockByNumber(blockchain.EventFilterTo, to)
-				exp := naive(n.chain, f, from, to, true)
-				if f.trailingEmpty && len(naive(n.chain, f, from, to, false)) != len(exp) {
+				exp := naive(all, f, from, to, true)
+				if f.trailingEmpty && len(naive(all, f, from, to, false)) != len(exp) {
 					r.Outcome("trailing-wildcard-excludes-shorter-event (tolerated: oracle follows juno's reading)")
 				}
 				if len(exp) > 0 {
@@ -490,7 +612,7 @@ func (h *harness) checkState(n *node, path []op, label string) {
 	h.queries.Add(q)
 	h.pages.Add(pg)
 	h.nonEmpty.Add(ne)
-	r.Outcome(fmt.Sprintf("state with %d events in chain", len(naive(n.chain, &filter{}, 0, head, true))))
+	r.Outcome(fmt.Sprintf("state with %d events in chain", len(all)))
 }
 
 func (h *harness) report(n *node, path []op, label string, f *filter, from, to, chunk uint64, lim uint, res pagedResult, exp []*refEvent, baseOK bool) {
@@ -521,7 +643,7 @@ func (h *harness) report(n *node, path []op, label string, f *filter, from, to, 
 			window = "running-window"
 		}
 		// does the omission survive a process restart (i.e. is it in the store) or only in memory?
-		fresh := chain.NewNode(n.db.Copy(), n.b.newState)
+		fresh := chain.NewNode(fastCopy(n.pre), n.b.newState)
 		persist := "until-restart (in-memory index state)"
 		if efI, err := fresh.EventFilter(f.addrs, f.keys, noPreConfirmed); err == nil {
 			ef := efI.(*blockchain.EventFilter)
